@@ -956,7 +956,7 @@ func init() {
 	// ------------------------------------------------------------------ C08
 	register(&Prop{
 		ID: "C08", Level: "exploration", QuickS: 25, ThoroughS: 420,
-		Rule:       "seeded extended-protocol histories over statements with 0-5 declared parameter types and typed columns: Bind messages with NULL / empty / NUL-containing / multi-KiB values, parameter-format lists of length 0, 1 and n, result-format lists of length 0, 1 and n, and 0-3 other messages (Describe, Parse of other names with long texts, simple queries, stray CopyData) between Bind and Execute; the statement function records count, Value(), Format() and Scan(declared oid) of every parameter; compared with the reference model and the independent codecs, including the RowDescription/DataRow formats of the portal and the ParameterDescription of the statement; 1 in 40 cases adds a $65535 statement bound with 65535/65534/32768 parameters under a 1 MiB limit; variant session-cancelled-before-bind: the middleware-derived session context ends in one command, a statement bound and executed afterwards - if it runs - receives what the same session delivers without the cancellation; 1 case in 50 is a decoy (an int4-only session on a server whose ExtendTypes option re-registers text, varchar, timestamp and numeric: the cases that follow in the same process must not notice); the scan op asks every parameter again with another OID and compares with a fresh parameter holding the same bytes; non-trivial = a statement function ran with at least one parameter; distinct = distinct case content hashes",
+		Rule:       "seeded extended-protocol histories over statements with 0-5 declared parameter types and typed columns: Bind messages with NULL / empty / NUL-containing / multi-KiB values, parameter-format lists of length 0, 1 and n, result-format lists of length 0, 1 and n, and 0-3 other messages (Describe, Parse of other names with long texts, simple queries, stray CopyData) between Bind and Execute; the statement function records count, Value(), Format() and Scan(declared oid) of every parameter; compared with the reference model and the independent codecs, including the RowDescription/DataRow formats of the portal and the ParameterDescription of the statement; 1 in 40 cases adds a $65535 statement bound with 65535/65534/32768 parameters under a 1 MiB limit; a quarter of the histories contain statement functions that fail (any SQLSTATE, serialization failures among them) at any point; variant session-cancelled-before-bind: the middleware-derived session context ends in one command, a statement bound and executed afterwards - if it runs - receives what the same session delivers without the cancellation; 1 case in 50 is a decoy (an int4-only session on a server whose ExtendTypes option re-registers text, varchar, timestamp and numeric: the cases that follow in the same process must not notice); the scan op asks every parameter again with another OID and compares with a fresh parameter holding the same bytes; non-trivial = a statement function ran with at least one parameter; distinct = distinct case content hashes",
 		Components: e1Components, Assumptions: commonAssumptions,
 		Gen: func(r *Rand, tier string) *Case {
 			if r.Chance(1, 10) {
@@ -975,7 +975,7 @@ func init() {
 			if many {
 				c.Server.Limit = 1 << 20
 			}
-			genHistory(r, c, histOpts{extended: true, simple: r.Chance(1, 4), params: true, binary: true, between: true, bigValues: true, closes: r.Chance(1, 4), maxUnits: units(tier, 6)})
+			genHistory(r, c, histOpts{extended: true, simple: r.Chance(1, 4), params: true, binary: true, between: true, bigValues: true, closes: r.Chance(1, 4), errs: r.Chance(1, 4), maxUnits: units(tier, 6)})
 			if many {
 				addManyParams(r, c)
 			}
